@@ -6,6 +6,12 @@ import ThriftVerif.Facts.ExpectGen
 #print axioms ThriftVerif.Properties.C14.equals_trans
 #print axioms ThriftVerif.Properties.C14.set_containment_lemma
 #print axioms ThriftVerif.Properties.C14.slice_set_not_symm_with_dups
+#print axioms ThriftVerif.Properties.C14.repeated_field_ids
+#print axioms ThriftVerif.Properties.C14.wire_equal_refl
+#print axioms ThriftVerif.Properties.C14.wire_equal_symm
+#print axioms ThriftVerif.Properties.C14.wire_equal_trans
+#print axioms ThriftVerif.Properties.C14.wire_equal_iff_same_logical_value
+#print axioms ThriftVerif.Properties.C14.old_struct_rule_not_symmetric
 #print axioms ThriftVerif.Properties.C14.list_order_sensitive
 #print axioms ThriftVerif.Properties.C14.equals_iff_wire_equal
 #print axioms ThriftVerif.Properties.C14.nil_handling
